@@ -144,6 +144,8 @@ func checkC06(c *Ctx, r *Result, tier string) {
 	r.Extra["reachable_functions"] = len(funcs)
 	r.Floor("C06-reach", len(funcs), 300)
 
+	premiseFails := c06Premises(c, oc)
+	r.Extra["reviewed_premises_failing"] = premiseFails
 	perKind := map[string][2]int{}
 	nObl := 0
 	usedReviewed := map[string]bool{}
@@ -163,12 +165,15 @@ func checkC06(c *Ctx, r *Result, tier string) {
 				r.Discharged++
 				pk[1]++
 				r.Instance(rule, ob.Site, ob.Pos, "discharged", ob.Why, true)
-			case c06Reviewed[ob.Site] != "":
+			case c06Reviewed[ob.Site] != "" && premiseFails[c06ReviewedPremise[ob.Site]] == "":
 				r.Discharged++
 				pk[1]++
 				usedReviewed[ob.Site] = true
 				r.Instance(rule, ob.Site, ob.Pos, "reviewed", c06Reviewed[ob.Site], true)
 			default:
+				if why := premiseFails[c06ReviewedPremise[ob.Site]]; why != "" {
+					ob.Why += " (the reviewed argument for this construct no longer applies: " + why + ")"
+				}
 				if dump {
 					fmt.Printf("OPEN\t%s\t%s\t%s\n", ob.Site, ob.Pos, ob.Why)
 				}
